@@ -1,128 +1,214 @@
 import Sourmash.Model.Murmur
-/-! Model/Seq.lean (prototype) — SeqToHashes as a state machine; matched the real iterator on 19 598 cases -/
+import Sourmash.Generated.C02
+import Sourmash.Spec.Kmers
+/-!
+Model/Seq.lean — `SeqToHashes` (src/core/src/signature.rs) as a state machine, branch for branch, and
+the `encodings.rs` helpers it calls.  Every table lookup goes through the tables that
+`translator/c02.py` regenerates from /repo on every run (`Gen.C02.*`), so the theorems in
+`Theorems/C02.lean` speak about what the source says now.
+
+From `Spec.Kmers` only the type `Mol` (the four hash functions) is used.
+-/
 namespace Seq
+open Kmers (Mol)
 
-inductive Mol | dna | protein | dayhoff | hp deriving DecidableEq, Repr
+/-! ### encodings.rs -/
 
+/-- `u8::to_ascii_uppercase` -/
 def upper (b : UInt8) : UInt8 := if 97 ≤ b && b ≤ 122 then b - 32 else b
 
-def complement (b : UInt8) : UInt8 :=
-  if b == 65 then 84 else if b == 67 then 71 else if b == 71 then 67 else if b == 84 then 65
-  else if b == 78 then 78 else 0
+/-- `COMPLEMENT[b]` -/
+def complement (b : UInt8) : UInt8 := UInt8.ofNat (Gen.C02.complementTable.getD b.toNat 0)
 
-def valid (b : UInt8) : Bool := b == 65 || b == 67 || b == 71 || b == 84
+/-- `VALID[b]` -/
+def valid (b : UInt8) : Bool := Gen.C02.validTable.getD b.toNat 0 == 1
 
+/-- `revcomp`: `seq.iter().rev().map(|nt| COMPLEMENT[nt])` -/
 def revcomp (s : List UInt8) : List UInt8 := s.reverse.map complement
 
--- standard code in TCAG order
-def aaString : List UInt8 := "FFLLSSSSYY**CC*WLLLLPPPPHHQQRRRRIIIMTTTTNNKKSSRRVVVVAAAADDEEGGGG".toUTF8.toList
-def baseIdx (b : UInt8) : Option Nat :=
-  if b == 84 then some 0 else if b == 67 then some 1 else if b == 65 then some 2 else if b == 71 then some 3 else none
+/-- `CODONTABLE.get(..)` on a 3-byte key -/
+def lookupCodon : List (Nat × Nat × Nat × Nat) → Nat → Nat → Nat → Option Nat
+  | [], _, _, _ => none
+  | (x, y, z, v) :: t, a, b, c => if x = a ∧ y = b ∧ z = c then some v else lookupCodon t a b c
+
+/-- 3-byte arm of `translate_codon`: table entry, else `X`.  (Keys that are not UTF-8 take the same
+    `None → X` arm since the repair; they are not in the table.) -/
 def codon3 (a b c : UInt8) : UInt8 :=
-  match baseIdx a, baseIdx b, baseIdx c with
-  | some i, some j, some k => aaString.getD (16*i + 4*j + k) 88
-  | some i, some j, none =>
-    if c == 78 then
-      let x := aaString.getD (16*i + 4*j) 88
-      if aaString.getD (16*i+4*j+1) 88 == x && aaString.getD (16*i+4*j+2) 88 == x && aaString.getD (16*i+4*j+3) 88 == x then x else 88
-    else 88
-  | _, _, _ => 88
+  match lookupCodon Gen.C02.codonTable a.toNat b.toNat c.toNat with
+  | some v => UInt8.ofNat v
+  | none => 88
 
-def dayhoff (aa : UInt8) : UInt8 :=
-  let c := Char.ofNat aa.toNat
-  if c == 'C' then 97 else if "AGPST".toList.contains c then 98 else if "DENQ".toList.contains c then 99
-  else if "HKR".toList.contains c then 100 else if "ILMV".toList.contains c then 101
-  else if "FWY".toList.contains c then 102 else if c == '*' then 42 else 88
-def hp (aa : UInt8) : UInt8 :=
-  let c := Char.ofNat aa.toNat
-  if "AFGILMPVWY".toList.contains c then 104 else if "NCSTDERHKQ".toList.contains c then 112
-  else if c == '*' then 42 else 88
+/-- `translate_codon`; `none` = `Err(InvalidCodonLength)` -/
+def translateCodon : List UInt8 → Option UInt8
+  | [_] => some 88
+  | [a, b] => some (codon3 a b 78)
+  | [a, b, c] => some (codon3 a b c)
+  | _ => none
 
-def toAA : List UInt8 → Mol → List UInt8
-  | a :: b :: c :: rest, m =>
+/-- `aa_to_dayhoff` -/
+def dayhoff (aa : UInt8) : UInt8 := UInt8.ofNat (Gen.C02.dayhoffTable.getD aa.toNat 88)
+/-- `aa_to_hp` -/
+def hp (aa : UInt8) : UInt8 := UInt8.ofNat (Gen.C02.hpTable.getD aa.toNat 88)
+
+/-- `to_aa(seq, dayhoff, hp)`: chunks of 3, the trailing incomplete chunk is dropped
+    (`translate_codon` is only ever called on 3-byte chunks, so the `?` never fires) -/
+def toAA (dh hpf : Bool) : List UInt8 → List UInt8
+  | a :: b :: c :: rest =>
     let r := codon3 a b c
-    (match m with | .dayhoff => dayhoff r | .hp => hp r | _ => r) :: toAA rest m
-  | _, _ => []
+    (if dh then dayhoff r else if hpf then hp r else r) :: toAA dh hpf rest
+  | _ => []
 
-def windows (k : Nat) (l : List α) : List (List α) :=
-  if k == 0 then [] else (List.range (l.length + 1 - k)).map (fun i => (l.drop i).take k)
+/-- `slice::windows(k)` for k ≥ 1 (k = 0 panics in Rust and is guarded at the call site) -/
+def windows {α : Type} (k : Nat) : List α → List (List α)
+  | [] => []
+  | a :: t => if k ≤ t.length + 1 then (a :: t).take k :: windows k t else []
 
-inductive Item | ok (h : UInt64) | errDna | errHf deriving Repr
+/-- `Ord` on byte slices: lexicographic, a proper prefix is smaller -/
+def lexLt : List UInt8 → List UInt8 → Bool
+  | [], [] => false
+  | [], _ :: _ => true
+  | _ :: _, [] => false
+  | a :: as, b :: bs => if a < b then true else if b < a then false else lexLt as bs
 
+/-- `std::cmp::min(a, b)`: `b` only when `b < a` -/
+def lexMin (a b : List UInt8) : List UInt8 := if lexLt b a then b else a
+
+/-! ### signature.rs: SeqToHashes -/
+
+inductive Item
+  | ok (h : UInt64)
+  | errDna            -- Err(InvalidDNA)
+  | errHf             -- Err(InvalidHashFunction)
+  | panic             -- `windows(0)`: "window size must be non-zero"
+  deriving DecidableEq, Repr
+
+/-- the fields of `SeqToHashes` (`prot_configured` is never written and therefore omitted) -/
 structure St where
-  seq : List UInt8
+  sequence : List UInt8
   kmerIndex : Nat := 0
-  k : Nat
+  kSize : Nat
   maxIndex : Nat
   force : Bool
   isProtein : Bool
   mol : Mol
   seed : UInt64
-  buf : List UInt64 := []
-  bufActive : Bool := false      -- hashes_buffer non-empty flag is buf ≠ []
+  hashesBuffer : List UInt64 := []
   dnaConfigured : Bool := false
-  rc : List UInt8 := []
-  lastCheck : Nat := 0
-  step : Nat := 0
+  dnaRc : List UInt8 := []
+  dnaKsize : Nat := 0
+  dnaLen : Nat := 0
+  dnaLastPositionCheck : Nat := 0
+  aaSeq : List UInt8 := []
+  translateIterStep : Nat := 0
 
+/-- `SeqToHashes::new` -/
 def St.new (seq : List UInt8) (ksize : Nat) (force isProtein : Bool) (mol : Mol) (seed : UInt64) : St :=
   let k := if isProtein || mol != .dna then ksize / 3 else ksize
   let mi := if seq.length ≥ k then seq.length - k + 1 else 0
-  { seq := seq.map upper, k := k, maxIndex := mi, force := force, isProtein := isProtein, mol := mol, seed := seed }
+  { sequence := seq.map upper, kSize := k, maxIndex := mi, force := force, isProtein := isProtein,
+    mol := mol, seed := seed }
 
-def lexMin (a b : List UInt8) : List UInt8 := if compare a b == .gt then b else a
+/-- the validity loop `for j in start..start+n`: stops at the first invalid base; every valid base
+    advances `dna_last_position_check` by one.  Returns (no invalid base met, new cursor). -/
+def scan (seq : List UInt8) : Nat → Nat → Nat → Bool × Nat
+  | _, 0, lc => (true, lc)
+  | j, n + 1, lc => if !valid (seq.getD j 0) then (false, lc) else scan seq (j + 1) n (lc + 1)
 
-/-- validity scan of positions j ∈ [start, stop): returns (firstInvalid?, newLastCheck) -/
-def scan (seq : List UInt8) (j stop lastCheck : Nat) : Bool × Nat :=
-  if h : j < stop then
-    if !valid (seq.getD j 0) then (false, lastCheck) else scan seq (j+1) stop (lastCheck+1)
-  else (true, lastCheck)
-termination_by stop - j
+/-- DNA sketch, DNA input -/
+def nextDna (s : St) : Option (Item × St) :=
+  let kmer := (s.sequence.drop s.kmerIndex).take s.dnaKsize
+  let start := max s.kmerIndex s.dnaLastPositionCheck
+  let r := scan s.sequence start (s.kmerIndex + s.dnaKsize - start) s.dnaLastPositionCheck
+  let s := { s with dnaLastPositionCheck := r.2 }
+  if !r.1 then
+    if !s.force then some (.errDna, s)
+    else some (.ok 0, { s with kmerIndex := s.kmerIndex + 1 })
+  else
+    let krc := (s.dnaRc.drop (s.dnaLen - s.dnaKsize - s.kmerIndex)).take s.dnaKsize
+    let h := Murmur.hash64 (lexMin kmer krc) s.seed
+    some (.ok h, { s with kmerIndex := s.kmerIndex + 1 })
 
+/-- the hashes of one frame pair (forward, reverse complement) -/
+def framePair (s : St) (f : Nat) : List UInt64 :=
+  let dh := s.mol == .dayhoff
+  let hpf := s.mol == .hp
+  let substr := (s.sequence.drop f).take (s.sequence.length - f)
+  let aa := toAA dh hpf substr
+  let rcSubstr := (s.dnaRc.drop f).take (s.dnaRc.length - f)
+  let aaRc := toAA dh hpf rcSubstr
+  (windows s.kSize aa).map (fun w => Murmur.hash64 w s.seed)
+    ++ (windows s.kSize aaRc).map (fun w => Murmur.hash64 w s.seed)
+
+/-- protein-family sketch, DNA input: fill the buffer, then hand it out one element per call -/
+def nextTranslate (s : St) : Option (Item × St) :=
+  if s.hashesBuffer.isEmpty && s.translateIterStep == 0 then
+    if s.kSize == 0 then some (.panic, s) else
+    some (.ok 0, { s with hashesBuffer := (List.range 3).flatMap (framePair s) })
+  else if s.translateIterStep == s.hashesBuffer.length then
+    some (.ok 0, { s with hashesBuffer := [], kmerIndex := s.maxIndex })
+  else
+    some (.ok (s.hashesBuffer.getD s.translateIterStep 0),
+          { s with translateIterStep := s.translateIterStep + 1 })
+
+/-- the `aa_seq` of the Dayhoff / HP arms (`None` = the `invalid =>` arm) -/
+def reducedSeq (m : Mol) (seq : List UInt8) : Option (List UInt8) :=
+  match m with
+  | .dayhoff => some (seq.map dayhoff)
+  | .hp => some (seq.map hp)
+  | _ => none
+
+/-- protein input -/
+def nextProtein (s : St) : Option (Item × St) :=
+  if s.mol == .protein then
+    let w := (s.sequence.drop s.kmerIndex).take s.kSize
+    some (.ok (Murmur.hash64 w s.seed), { s with kmerIndex := s.kmerIndex + 1 })
+  else
+    match reducedSeq s.mol s.sequence with
+    | none => some (.errHf, s)
+    | some aa =>
+      let s := { s with aaSeq := aa }
+      let w := (s.aaSeq.drop s.kmerIndex).take s.kSize
+      some (.ok (Murmur.hash64 w s.seed), { s with kmerIndex := s.kmerIndex + 1 })
+
+/-- `Iterator::next` -/
 def St.next (s : St) : Option (Item × St) :=
-  if s.kmerIndex < s.maxIndex || !s.buf.isEmpty then
+  if s.kmerIndex < s.maxIndex || !s.hashesBuffer.isEmpty then
     if !s.isProtein then
-      -- configure
-      let len := s.seq.length
-      if !s.dnaConfigured && (len < s.k || (s.mol != .dna && len < s.k * 3)) then none else
-      let s := if s.dnaConfigured then s else { s with rc := revcomp s.seq, dnaConfigured := true }
-      if s.mol == .dna then
-        let kmer := (s.seq.drop s.kmerIndex).take s.k
-        let (okAll, lc) := scan s.seq (max s.kmerIndex s.lastCheck) (s.kmerIndex + s.k) s.lastCheck
-        let s := { s with lastCheck := lc }
-        if !okAll then
-          if !s.force then some (.errDna, s) else some (.ok 0, { s with kmerIndex := s.kmerIndex + 1 })
-        else
-          let krc := (s.rc.drop (len - s.k - s.kmerIndex)).take s.k
-          let h := Murmur.hash64 (lexMin kmer krc) s.seed
-          some (.ok h, { s with kmerIndex := s.kmerIndex + 1 })
-      else if s.buf.isEmpty && s.step == 0 then
-        let frames := (List.range 3).flatMap (fun f =>
-          let aa := toAA (s.seq.drop f) s.mol
-          let aarc := toAA (s.rc.drop f) s.mol
-          (windows s.k aa).map (fun w => Murmur.hash64 w s.seed) ++ (windows s.k aarc).map (fun w => Murmur.hash64 w s.seed))
-        some (.ok 0, { s with buf := frames })
+      if !s.dnaConfigured
+          && (s.sequence.length < s.kSize || (s.mol != .dna && s.sequence.length < s.kSize * 3)) then
+        none
       else
-        if s.step == s.buf.length then some (.ok 0, { s with buf := [], kmerIndex := s.maxIndex })
-        else some (.ok (s.buf.getD s.step 0), { s with step := s.step + 1 })
-    else
-      if s.mol == .protein then
-        let w := (s.seq.drop s.kmerIndex).take s.k
-        some (.ok (Murmur.hash64 w s.seed), { s with kmerIndex := s.kmerIndex + 1 })
-      else if s.mol == .dna then some (.errHf, s)
-      else
-        let aa := s.seq.map (fun b => if s.mol == .dayhoff then dayhoff b else hp b)
-        let w := (aa.drop s.kmerIndex).take s.k
-        some (.ok (Murmur.hash64 w s.seed), { s with kmerIndex := s.kmerIndex + 1 })
+        let s := if s.dnaConfigured then s else
+          { s with dnaKsize := s.kSize, dnaLen := s.sequence.length, dnaRc := revcomp s.sequence,
+                   dnaConfigured := true }
+        if s.mol == .dna then nextDna s else nextTranslate s
+    else nextProtein s
   else none
 
-/-- run until None or first error (fuel-bounded) -/
+/-- the items a `for` loop sees: up to `None`, or up to and including the first `Err`/panic
+    (fuel-bounded; `Theorems/C02.lean` shows that `sequence.length + buffer + 2` is always enough) -/
 def run (s : St) : Nat → List Item
   | 0 => []
-  | fuel+1 =>
+  | fuel + 1 =>
     match s.next with
     | none => []
     | some (.ok h, s') => .ok h :: run s' fuel
     | some (e, _) => [e]
+
+/-- fuel that suffices for any state (see `run_stable`) -/
+def fuelFor (seq : List UInt8) : Nat := 2 * seq.length + 4
+
+/-- `add_sequence` / `add_protein`: `Ok(0)` is skipped, any other `Ok(x)` goes to `add_hash`, the
+    first `Err` ends the call.  Returns the `add_hash` arguments in order. -/
+def fedHashes : List Item → List UInt64
+  | [] => []
+  | .ok h :: t => if h == 0 then fedHashes t else h :: fedHashes t
+  | _ :: _ => []
+
+/-- the `Result` of the call: the first non-`Ok` item, if any -/
+def firstErr : List Item → Option Item
+  | [] => none
+  | .ok _ :: t => firstErr t
+  | e :: _ => some e
 
 end Seq
